@@ -43,6 +43,12 @@ func crashBigHistory(seed int64) ([]E, *Universe) {
 		{"op": "CreateIndex", "c": c, "f": B("x")},
 		{"op": "DropIndex", "c": c, "f": B("x")},
 		{"op": "CreateIndex", "c": c, "f": B("x")},
+		// a dump of the 700 documents, imported under another name (an import may be cut into batches: the kill
+		// lands between them too), indexed, dropped
+		{"op": "Export", "c": c, "path": "big.json"},
+		{"op": "Import", "c": "big2", "path": "big.json"},
+		{"op": "CreateIndex", "c": "big2", "f": B("x")},
+		{"op": "DropCollection", "c": "big2"},
 		{"op": "UpdateFunc", "c": c, "q": where, "upd": []interface{}{"set", B("x"), ANum(g.smallN[0], "i")}},
 		{"op": "DropIndex", "c": c, "f": B("x")},
 		{"op": "CreateIndex", "c": c, "f": B("x")},
